@@ -72,7 +72,14 @@ class Ctx:
         self.extra = {}
 
     def _get(self, st, name, ref=None):
-        v = self.ex.get_field(st, ref or self.self_ref, name)
+        ref = ref or self.self_ref
+        v = self.ex.get_field(st, ref, name)
+        d = self.ex.deref(st, v)
+        if isinstance(d, VList):
+            # a concrete list stored in a field declared as a symbolic sequence: view it as that sequence
+            t = self.ex.spec.classes.get(st.rec(ref).cls, {}).get(name)
+            if t is not None and t.kind == 'seq':
+                return VSeq(to_z3(d, t), t.args[0])
         return v
 
     @staticmethod
